@@ -131,6 +131,17 @@ class C03(core.Property):
 
     if not same(plain, plain2) or not same(padded, padded2):
       problems.append('second iteration of the same view differs')
+    # two live iterations over one view object must not disturb each other
+    for name, v, ref in (('batch', view, plain), ('padded_batch', pview, padded)):
+      pairs = list(zip(v, v))
+      if not same([a for a, _ in pairs], ref) or not same([b for _, b in pairs], ref):
+        problems.append(f'interleaved iteration of one {name} view (zip(view, view)) is not two identical passes')
+      it1 = iter(v)
+      first = next(it1, None)
+      whole = list(v)           # a complete pass while it1 is suspended
+      rest = list(it1)
+      if not same(whole, ref) or not same(([first] if first is not None else []) + rest, ref):
+        problems.append(f'a pass over a {name} view started while another iterator is suspended disturbs one of them')
     if not same(plain, plain_h) or not same(padded, padded_h):
       problems.append('hparams-object form differs from kwargs form')
     if any(not np.array_equal(raw[k], snap[k]) for k in snap) or set(raw) != set(snap):
